@@ -75,6 +75,13 @@ pub fn pow_model(x: f64, p: f64) -> f64 {
             kani::assume(p < 1e-6 || r > 1.0);
             kani::assume(p > -1e-6 || r < 1.0);
             kani::assume(p != -3.0 || (r >= 0.000999 && r <= 0.001001));
+            // growth bounds (decade brackets): 10^p <= 10^ceil(p) and >= 10^floor(p) for |p| <= 6
+            kani::assume(p > 1.0 || r <= 10.0);
+            kani::assume(p > 2.0 || r <= 100.0);
+            kani::assume(p > 6.0 || r <= 1.0e6);
+            kani::assume(p < -1.0 || r >= 0.1);
+            kani::assume(p < -2.0 || r >= 0.01);
+            kani::assume(p < -6.0 || r >= 1.0e-6);
         } else if x >= 0.0 && x <= 1.0 && p > 0.0 {
             // POW
             kani::assume(r >= 0.0 && r <= 1.0);
@@ -147,13 +154,12 @@ pub fn tan64_model(x: f64) -> f64 {
             i += 1;
         }
         let r: f64 = kani::any();
-        if x >= 0.0 && x <= 1.5707963 {
-            kani::assume(r >= x && r.is_finite());
-            // tan(pi/2 - 1e-7) < 1e7 ; tan(x) <= 1/(pi/2 - x)
-            kani::assume(r <= 1.0 / (1.5707963267948966 - x));
+        if x >= 0.0 && x <= 1.5707963267948966 {
+            // on [0, fl(pi/2)]: tan x >= x, finite (tan(fl(pi/2)) = 1.633e16), monotone
+            kani::assume(r >= x && r.is_finite() && r <= 1.7e16);
             let mut i = 0;
             while i < MEMO {
-                if i < TAN_MEMO.n && TAN_MEMO.a[i] >= 0.0 && TAN_MEMO.a[i] <= 1.5707963 {
+                if i < TAN_MEMO.n && TAN_MEMO.a[i] >= 0.0 && TAN_MEMO.a[i] <= 1.5707963267948966 {
                     if TAN_MEMO.a[i] <= x { kani::assume(TAN_MEMO.r[i] <= r); }
                     if TAN_MEMO.a[i] >= x { kani::assume(TAN_MEMO.r[i] >= r); }
                 }
